@@ -93,7 +93,16 @@ var (
 	perturbLevel  int32 // 1 Errorf/Print only, 2 + Infof, 3 + Debugf
 )
 
+// logHook, when set, is called at every log call of the library with whether the caller is
+// the reader (or watcher) goroutine; scenarios use it to act at a precise point of the parser.
+var logHook atomic.Value // func(reader bool)
+
 func perturb(level int32) {
+	if h, ok := logHook.Load().(func(bool)); ok && h != nil {
+		var buf [2048]byte
+		st := string(buf[:runtime.Stack(buf[:], false)])
+		h(strings.Contains(st, "startDumpFromBinlogPosition.func1") || strings.Contains(st, "startWatcher"))
+	}
 	who := atomic.LoadInt32(&perturbWho)
 	if who == 0 || level > atomic.LoadInt32(&perturbLevel) {
 		return
